@@ -16,6 +16,7 @@ import (
 // CycleScript: a cycle of ops repeated 4N times after a handshake.
 type CycleScript struct {
 	Cfg   SessCfg `json:"cfg"`
+	Pre   []SOp   `json:"pre,omitempty"` // done once, before the cycles: what it leaves behind must not make the cycles accumulate
 	Cycle []SOp   `json:"cycle"`
 	N     int     `json:"n"`
 	NoPro bool    `json:"nopro,omitempty"` // no exchange of texts before the cycles start (the ratchet starts in its initial phase)
@@ -82,6 +83,12 @@ func (r *c19run) exec(op SOp) {
 			w.Receive(who, []byte(forms[f]))
 			w.Q[who] = w.Q[who][:before]
 		}
+	case "pendake":
+		// a query arrives and the D-H Commit sent in answer is lost: a key exchange stays pending inside the session
+		w.AgeClock(who, 3*60e9)
+		before := len(w.Q[who])
+		w.Receive(who, []byte("?OTRv23?"))
+		w.Q[who] = w.Q[who][:before]
 	case "errreq":
 		// an unauthenticated "?OTR Error" asks for the last message again at the next key exchange
 		w.Receive(who, []byte("?OTR Error: could not read that"))
@@ -198,6 +205,10 @@ func runC19(sc *CycleScript) *sim.Outcome {
 	if !sc.NoPro {
 		s.Exec(SOp{K: "pp", W: 0, I: 0, L: 20})
 	}
+	for _, op := range sc.Pre {
+		r.exec(op)
+		o.Class("pre-" + op.K)
+	}
 	n := sc.N
 	if n < 2 {
 		n = 2
@@ -302,6 +313,9 @@ func TestProp_C19_Cycles(t *testing.T) {
 			sc.Cycle = append(sc.Cycle, SOp{K: rapid.SampledFrom(kinds).Draw(rt, "k"), W: rapid.IntRange(0, 1).Draw(rt, "w"), I: rapid.IntRange(0, 3).Draw(rt, "i"),
 				L: rapid.IntRange(0, 50).Draw(rt, "l"), F: rapid.IntRange(0, 50).Draw(rt, "f"), X: rapid.IntRange(0, 1000).Draw(rt, "x")})
 		}
+		for i, np := 0, rapid.IntRange(-2, 2).Draw(rt, "npre"); i < np; i++ {
+			sc.Pre = append(sc.Pre, SOp{K: rapid.SampledFrom([]string{"errreq", "pendake", "age", "smprun"}).Draw(rt, "prek"), W: rapid.IntRange(0, 1).Draw(rt, "prew")})
+		}
 		sim.Judge(rt, "C19cycles", sc)
 	})
 }
@@ -362,8 +376,29 @@ func TestProp_C19_Patterns(t *testing.T) {
 	for x := 1; x <= 7; x++ {
 		pats = append(pats, []SOp{{K: "fragflood", W: x & 1, I: 2, X: x}})
 	}
+	// something happens once, then traffic of one kind goes on and on
+	type prePat struct{ pre, cyc []SOp }
+	prePats := []prePat{
+		{[]SOp{{K: "errreq", W: 0}}, []SOp{{K: "burst", W: 0, I: 2}}},
+		{[]SOp{{K: "errreq", W: 1}}, []SOp{{K: "pp", W: 0}}},
+		{[]SOp{{K: "errreq", W: 0}}, []SOp{{K: "cross", W: 0}}},
+		{nil, []SOp{{K: "errreq", W: 0}, {K: "burst", W: 0, I: 1}}},
+		{nil, []SOp{{K: "errreq", W: 1}, {K: "pp", W: 1}}},
+		{[]SOp{{K: "pendake", W: 0}}, []SOp{{K: "garbage", W: 0}}},
+		{[]SOp{{K: "pendake", W: 1}}, []SOp{{K: "garbage", W: 1}, {K: "forge", W: 1, L: 1, X: 3}}},
+		{[]SOp{{K: "pendake", W: 0}}, []SOp{{K: "garbage", W: 0}, {K: "pp", W: 0}}},
+		{[]SOp{{K: "pendake", W: 0}}, []SOp{{K: "replayflood", W: 0}}},
+		{[]SOp{{K: "pendake", W: 1}}, []SOp{{K: "burst", W: 0, I: 2}}},
+		{[]SOp{{K: "pendake", W: 0}, {K: "pendake", W: 1}}, []SOp{{K: "pp", W: 0}, {K: "garbage", W: 1}}},
+	}
 	idx := 0
 	for _, v := range []int{3, 2} {
+		for _, pp := range prePats {
+			idx++
+			if idx%sn == si {
+				sim.Judge(t, "C19patterns", &CycleScript{Cfg: SessCfg{V: v, SeedA: 1900, SeedB: 2001, KeyA: 0, KeyB: 3}, Pre: pp.pre, Cycle: pp.cyc, N: n})
+			}
+		}
 		for _, p := range pats {
 			idx++
 			if idx%sn != si {
